@@ -19,7 +19,10 @@ def _deep(leaf):
 # two more queries that agree down to nesting depth 6 and differ only below it (same printed prefix, different meaning);
 # the pair is chosen per base so that the reference answers of the two differ (see deep_pair)
 QALPHA4 = [(1, (b, a)), (0, (c, A(a, b))), (-2, (b, a)), (7, (N(c), b))]
-QALPHA = QALPHA4 + [(3, (b, _deep(c))), (4, (b, _deep(N(c))))]
+# index 6: a query with a contradictory antecedent (decided by the vacuity rule); index 7: a DIFFERENT query under key 1, the key
+# of query 0 (the two can never be in one batch, but a later call may re-use the key)
+QEXTRA = [(9, (c, A(b, N(b)))), (1, (N(b), a))]
+QALPHA = QALPHA4 + [(3, (b, _deep(c))), (4, (b, _deep(N(c))))] + QEXTRA
 
 
 def _deepx(x, leaf):
@@ -49,7 +52,8 @@ SINGLES = [(i,) for i in range(4)]
 PAIRS = [p for p in itertools.permutations(range(4), 2)]
 TRIPLES = [(0, 1, 2), (2, 1, 0), (3, 0, 1), (1, 3, 2)]
 DEEP = [(4,), (5,), (4, 5), (5, 4), (0, 5, 4)]
-BATCHES = SINGLES + PAIRS + TRIPLES + DEEP
+EXTRA = [(6,), (7,), (6, 0), (7, 1), (2, 7, 6)]
+BATCHES = SINGLES + PAIRS + TRIPLES + DEEP + EXTRA
 STRICT = ("p", "z", "w-rc2", "w-z3", "lex-rc2", "lex-z3", "c")
 EXT = ("p", "z", "w-rc2", "w-z3", "lex-rc2", "lex-z3")
 
@@ -163,7 +167,8 @@ class C13(Check):
     rule = ("State machine = one InferenceManager per (base, operator, back-end, mode); operations inference(batch, multi) with "
             "batch over a query alphabet {1:(b|a), 0:(c|a,b), -2:(b|a), 7:(!c|b)} (duplicate text, keys colliding with batch "
             "positions, a negative key) plus two queries that agree down to nesting depth 6 and differ below: 4 singles, 12 ordered "
-            "pairs, 4 triples, 5 batches with the deep pair; multi in {False, True}. E-seq (a): un-merged "
+            "pairs, 4 triples, 5 batches with the deep pair, 5 batches with a vacuous query and with a different query under an "
+            "already used key; multi in {False, True}. E-seq (a): un-merged "
             "DFS over ALL sequences of depth <= 2 (thorough 3) of the sequential operations and of the parallel ones under the "
             "default schedule, per (base, config, mode). E-seq (b): explicit-state BFS with states merged on a canonical form "
             "of epistemic_state (id-pool numbering dropped) over 6 operations until no new state appears; all depth<=3 "
@@ -197,7 +202,7 @@ class C13(Check):
         for weakly in (False, True):
             conds = self.bases[weakly][0]
             for cfg in (("z", "w-rc2", "c", "lex-z3") if not weakly else ("w-rc2", "p")):
-                for batch in ((2,), (0, 1), (1, 0, 2)) + (() if quick else ((3, 0, 1),)):
+                for batch in ((2,), (0, 1), (1, 0, 2), (6, 7)) + (() if quick else ((3, 0, 1),)):
                     out.append(("sched", conds, cfg, weakly, batch))
         out.sort(key=lambda t: -len(t))
         return out
@@ -212,7 +217,7 @@ class C13(Check):
         conds, cfg, weakly = task[1], task[2], task[3]
         case0 = {"sig": scopes.SIG3, "conds": [forms.ctxt(x) for x in conds], "conds_f": conds, "config": cfg, "weakly": weakly}
         global QALPHA
-        QALPHA = QALPHA4 + deep_pair(conds, cfg, weakly)
+        QALPHA = QALPHA4 + deep_pair(conds, cfg, weakly) + QEXTRA
         alone = alone_answers(conds, cfg, weakly)
         if alone[4] != alone[5] and not any(drive.is_exc(x) for x in alone):
             res.counters["tasks_with_distinguishing_deep_pair"] += 1
@@ -229,6 +234,9 @@ class C13(Check):
                 for seq in itertools.product(range(len(BATCHES)), repeat=d):
                     if multi and d == 2 and (seq[0] + seq[1]) % 4:      # parallel calls are ~20x dearer: every 4th pair
                         continue
+                    if (not multi and d == 2 and self.tier == "quick" and cfg in ("p", "z", "w-z3", "lex-z3")
+                            and (seq[0] + seq[1]) % 2):
+                        continue      # operators that keep no per-query state between calls: every 2nd pair in the quick tier
                     nseq += 1
                     mgr = fresh(conds, cfg, weakly)
                     with sched.patched_mp(sched.Chooser()) as dbl:
@@ -386,7 +394,7 @@ class C13(Check):
         conds = [opsem.tup(x) for x in cs["conds_f"]]
         cfg, weakly = cs["config"], cs["weakly"]
         global QALPHA
-        QALPHA = QALPHA4 + deep_pair(conds, cfg, weakly)
+        QALPHA = QALPHA4 + deep_pair(conds, cfg, weakly) + QEXTRA
         alone = alone_answers(conds, cfg, weakly)
         if rec["kind"] == "schedule":
             mgr = fresh(conds, cfg, weakly)
